@@ -27,7 +27,7 @@ type c04Case struct {
 }
 
 var c04Causes = []string{
-	"handler-ok", "handler-ok", "handler-ok-status", "handler-err", "handler-err", "handler-err", "unknown-route", "bad-body", "panic-s", "panic-e",
+	"handler-ok", "handler-ok", "handler-ok-status", "handler-err", "handler-err", "handler-err", "unknown-route", "bad-body", "panic-s", "panic-e", "panic-st", "panic-st-ok",
 	"veto-PostReadCallHeader", "veto-PreReadCallBody", "veto-PostReadCallBody", "conn-closed", "result-mismatch", "result-mismatch",
 	"cveto-PreWriteCall", "rveto-PostReadReplyHeader", "rveto-PreReadReplyBody", "rveto-PostReadReplyBody",
 }
@@ -165,6 +165,8 @@ func (c c04Case) arg() *LibArg {
 		a.Act = "panic-s"
 	case "panic-e":
 		a.Act = "panic-e"
+	case "panic-st", "panic-st-ok":
+		a.Act = c.Cause
 	case "conn-closed":
 		a.Act = "slow"
 	}
@@ -197,6 +199,10 @@ func (c c04Case) expected() expect {
 		return expect{code: 400, msg: sp("Bad Message")}
 	case c.Cause == "panic-s" || c.Cause == "panic-e":
 		return expect{code: 500, msg: sp("Internal Server Error"), cause: sp("boom " + c.Val)}
+	case c.Cause == "panic-st" || c.Cause == "panic-st-ok":
+		// a handler that panics with a Status value (ThrowStatus / CheckStatus style) has
+		// panicked all the same: the 500 rule, whatever the thrown status says
+		return expect{code: 500, msg: sp("Internal Server Error")}
 	case strings.HasPrefix(c.Cause, "veto-"):
 		stage := strings.TrimPrefix(c.Cause, "veto-")
 		return expect{code: 777, msg: sp("veto at " + stage), cause: sp("plugin veto")}
@@ -372,7 +378,7 @@ func runC04(c c04Case) (string, vt.StatusTriple) {
 	// the handler ran exactly when the model says so
 	wantCalls := 0
 	switch {
-	case c.Cause == "handler-ok", c.Cause == "handler-ok-status", c.Cause == "handler-err", c.Cause == "panic-s", c.Cause == "panic-e", c.Cause == "conn-closed", c.Cause == "result-mismatch", strings.HasPrefix(c.Cause, "rveto-"):
+	case c.Cause == "handler-ok", c.Cause == "handler-ok-status", c.Cause == "handler-err", c.Cause == "panic-s", c.Cause == "panic-e", c.Cause == "panic-st", c.Cause == "panic-st-ok", c.Cause == "conn-closed", c.Cause == "result-mismatch", strings.HasPrefix(c.Cause, "rveto-"):
 		wantCalls = 1
 	}
 	if c.Cause != "conn-closed" {
@@ -410,7 +416,7 @@ func (c c04Case) knownKey() string {
 	return ""
 }
 
-const ruleC04 = "one call per case: cause in {handler OK (nil status or an explicit status object with code 0), handler status (any int32 code, any msg/cause bytes within the codec's text domain), unknown route, undecodable request body, handler panic, server-side veto at each pre-handler stage, caller-side veto before writing and at each reply-reading stage, connection cut while the handler runs, result-type mismatch} x protocol {raw,json,pb,http,ws+json,ws+pb over the real websocket upgrade} x body codec {json,xml,form} x transfer-filter pipe {none, gzip, md5, gzip+md5} x reply codec asked for {none, json, xml, form, an unregistered id}; oracle: small model of the expected (code,msg,cause) at accessor level, decodability of a mismatching result decided by the codec alone; non-trivial = expected outcome is not OK or the result type mismatches; distinct by the case"
+const ruleC04 = "one call per case: cause in {handler OK (nil status or an explicit status object with code 0), handler status (any int32 code, any msg/cause bytes within the codec's text domain), unknown route, undecodable request body, handler panic (with a string, an error, a non-OK Status or an OK Status as the panic value), server-side veto at each pre-handler stage, caller-side veto before writing and at each reply-reading stage, connection cut while the handler runs, result-type mismatch} x protocol {raw,json,pb,http,ws+json,ws+pb over the real websocket upgrade} x body codec {json,xml,form} x transfer-filter pipe {none, gzip, md5, gzip+md5} x reply codec asked for {none, json, xml, form, an unregistered id}; oracle: small model of the expected (code,msg,cause) at accessor level, decodability of a mismatching result decided by the codec alone; non-trivial = expected outcome is not OK or the result type mismatches; distinct by the case"
 
 func TestC04Status(t *testing.T) {
 	rec := vt.NewRec(t, "C04", "status", ruleC04)
